@@ -377,8 +377,11 @@ def c11(ctx):
                         "an error answer is demanded at the latest two sweeps after the cancellation"]
     q = ctx.quick
     ctx.design("NotifQueue", "MC_NotifQueue_quick.cfg" if q else "MC_NotifQueue_thorough.cfg")
-    beh = ctx.generate("NotifQueue", "MC_NotifQueue_gen.cfg", num=1500 if q else 30000, depth=14)
-    ctx.gv("tlc-schedules", "Trace_NotifQueue", ["queue"], inputs=beh)
+    beh = ctx.generate("NotifQueue", "MC_NotifQueue_gen.cfg", num=1500 if q else 30000, depth=20)
+    if not ctx.gv("tlc-schedules", "Trace_NotifQueue", ["queue"], inputs=beh):
+        return
+    # long random schedules (20 waiters, revisions 0..11, 60 steps) and the real ForwardingKVServer over the real queue
+    ctx.gv("random-schedules", "Trace_NotifQueue", ["queue", "--seed", str(seed()), "--n", str(300 if q else 5000)])
 
 
 @check("C06")
